@@ -1,6 +1,6 @@
 (* C06 Exit liveness: an open order can always be cancelled and made whole. *)
 From ATS Require Import Prelude Dec DecFacts Uuid Semver Types Contract Tactics Spec Inv InvAsk InstProofs AskProofs
-  BidFacts InvBid InvStep ExitProofs MigrateProofs MigrateInv.
+  BidFacts InvBid InvStep ExitProofs MigrateProofs MigrateInv Ledger Drain.
 
 (* asks: in every state reachable from an instantiation by ANY history (no side condition: fills of any accepted
    size, partial rejects, configuration changes, changes of marker type between steps), under any environment e'
@@ -104,3 +104,30 @@ Example C06_offgrid_remainder_exits :
   | Refused _ => False
   end.
 Proof. vm_compute. repeat split. Qed.
+
+(* the whole book can be wound up: in every state reachable by a clean history, cancelling each open order by its
+   owner, in book order, is accepted step by step and leaves both books empty (no order blocks another's exit) ... *)
+Theorem C06_book_can_be_emptied : forall e' e m st0 r0 evs,
+  env_version_ok e -> instantiate e empty_state m = Ok (st0, r0) -> clean_run st0 evs ->
+  let st := run st0 evs in
+  let st' := run st (ask_cancels e' (st_asks st) ++ bid_cancels e' (st_bids st)) in
+  st_asks st' = [] /\ st_bids st' = [].
+Proof.
+  intros e' e m st0 r0 evs He Hi Hc. cbv zeta.
+  destruct (book_can_be_emptied e' (run st0 evs) (Inv_reachable e m st0 r0 evs He Hi Hc)) as (H1 & H2 & _). auto.
+Qed.
+Print Assumptions C06_book_can_be_emptied.
+
+(* ... and what that pays out, net of nothing coming in, is exactly what the book owed (per denomination): every
+   owner and approver gets back the whole escrow, nobody more *)
+Theorem C06_everything_owed_is_paid_out : forall e' e m st0 r0 evs d,
+  env_version_ok e -> instantiate e empty_state m = Ok (st0, r0) -> clean_run st0 evs ->
+  let st := run st0 evs in
+  let drain := ask_cancels e' (st_asks st) ++ bid_cancels e' (st_bids st) in
+  never_self drain ->
+  fst (ledger st drain d) + owed st d = snd (ledger st drain d).
+Proof.
+  intros e' e m st0 r0 evs d He Hi Hc. cbv zeta. apply everything_owed_is_paid_out.
+  apply (Inv_reachable e m st0 r0 evs He Hi Hc).
+Qed.
+Print Assumptions C06_everything_owed_is_paid_out.
